@@ -31,7 +31,7 @@ PROPS["C19"] = dict(
     explanation=MIX)
 
 PROPS["C10"] = dict(
-    level="other", claimed=True,
+    level="other", claimed=True, verus=True,
     level_text='Verus (bodies cut out of /repo, abstract hash): for every well-formed tree of 2^d leaves (1 <= d < 63) and every index, prove returns Err exactly for out-of-range indices and otherwise the authentication path; verify refuses paths of fewer than 2 or more than 64 entries and otherwise accepts exactly when the value folded from the path along the index bits equals the root; the path returned by prove is accepted against root(). Kani (bounded): root construction and single openings on 8 symbolic leaves, with counterexamples. Native bounded stand-in on the real batch code: every position subset of trees up to 16 leaves in three orders verifies, decompresses to the single paths and re-compresses; every single-element, shape (extra / missing leaf, node, node vector), depth and position mutation is refused without a panic.',
     level_note='BTreeMap-based batch code does not finish in CBMC even for concrete arguments, hence the native stand-in (bounded, not a proof). For all tree sizes only single openings are proved, assuming the tree is well-formed (construction by build_merkle_nodes is unsafe pointer code: Kani, bounded); batch openings rest on the stand-in; concurrent tree construction is not covered.',
     explanation=MIX)
@@ -47,18 +47,18 @@ PROPS["C13"] = dict(
     explanation=MIX)
 
 PROPS["C15"] = dict(
-    level="other", claimed=True,
+    level="other", claimed=True, verus=True,
     level_text='Verus (body cut out of /repo): fold_positions returns, for every list of positions and every domain, exactly the set of folded positions - every image present, nothing else, no repetition, all below the folded domain size. Kani contracts on the rest of the integer part (layer count and position-to-leaf-index map complete over their admissible domains; position folding again, bounded in list length, with counterexamples). Native bounded stand-in for whole FRI runs on the real prover and verifier: honest proofs of the full parameter grid are accepted after serialization (reused prover, repeated positions, base fields, quadratic and cubic extensions, layers above 64 KiB).',
     level_note='The folding identity of apply_drp for symbolic field values is beyond the SAT back end; it is exercised, not proved. Bounded stand-ins are listed under coverage.native_bounded_standins.',
     explanation=MIX)
 PROPS["C16"] = dict(
-    level="other", claimed=True,
+    level="other", claimed=True, verus=True,
     level_text="Verus (body cut out of /repo): overlaps_with is true exactly when the two assertions name a common step of the same column, for every power-of-two trace length and all well-formed single / periodic / sequence shapes; Kani: the same with a counterexample for trace lengths <= 32; validate_trace_length / get_num_steps / the single, periodic and sequence constructors accept exactly the well-formed assertions; ConstraintDivisor numerators, exemptions and evaluate_at on bounded domains. Native bounded stand-in for BoundaryConstraints::new (BTreeMap / BTreeSet code): overlapping assertions are refused in every listing order; group divisors vanish exactly on the asserted steps and every constraint compares its cell with the asserted value, for all ordered pairs of assertions on trace lengths 8, 16, 32.",
     level_note='Bounded (stated per obligation / stand-in). Not decided: divisor zero sets and value polynomials for all domain sizes; set_num_transition_exemptions beyond the exercised values.',
     explanation=MIX)
 
 PROPS["C11"] = dict(
-    level="other", claimed=True,
+    level="other", claimed=True, verus=True,
     level_text="Kani on the real code with the Rescue permutation replaced by a double (the clauses hold for every permutation): hash_elements of Rp64_256 / Rp62_248 / RpJive64_256 equals the documented sponge written independently in the harness for element lists around the rate boundaries and does not depend on base-versus-extension typing; hash(bytes) == hash_elements(encode(bytes)) with the documented padding; merge == hash of the concatenation; merge_with_int's absorbed encoding is injective. Frequency-domain MDS fast path (12x12, 8x8), Verus on the bodies cut out of /repo (FFT helpers, the three frequency blocks, mds_multiply_freq, mds_multiply): for EVERY state each output lane is the canonical representative of the corresponding row of the hasher's MDS constant times the state modulo M, with no intermediate overflow; Kani: no overflow and canonical results for every state, columns of the documented circulant on unit vectors (with counterexamples).",
     level_note='Bounded in input length (stated per obligation). Not decided: S-box / inverse S-box / round constants against a reference; that the MDS constant is an MDS matrix; Blake3 / SHA3 wrappers (external crates).',
     explanation=MIX)
@@ -81,7 +81,7 @@ PROPS["C03"] = dict(
     explanation=MIX)
 
 PROPS["C20"] = dict(
-    level="other", claimed=True,
+    level="other", claimed=True, verus=True,
     level_text="Verus, bodies cut out of /repo, against an abstract coefficient structure (uninterpreted +, -, *; no axiom used, so "
                "the result covers base and extension fields): polynom::add / sub / mul / mul_by_scalar return, for every length and "
                "every coefficient value, exactly the coefficient-wise sum / difference, the schoolbook convolution and the scaled "
